@@ -1828,7 +1828,11 @@ def check_c09(ix, cfg):
                 ex = next((q for q in ix.kinds["fn-exit"] if q["pos"] == fe["pos"] and q["n"] == fe["n"]), None)
                 if ex is None or ex["s"] > d["s1"]:
                     continue
-                if ex["s"] > x["s"] and ex["vt"] - x["vt"] >= 8.0:
+                # time the call may legitimately take after the decision: injected stalls (any thread: the done-callback, the
+                # woken caller, the checkpoint thread), the round trip of the map/parallel's own completion record, the batch window
+                stalled = sum(e["d"] for e in ix.kinds["stall"] if e["i"] == inv and x["s"] <= e["s"] <= d["s1"])
+                slack = stalled + 2 * (cfg.get("latency") or [0, 0])[1] + ((cfg.get("batch") or {}).get("window") or 1.0)
+                if ex["s"] > x["s"] and ex["vt"] - x["vt"] >= 8.0 + slack:
                     out.append(V("C09", "returned-too-late", f"{pos}: policy decided at seq {x['s']} (vt {x['vt']}) but the call returned only "
                                  f"after the long-running function of {fe['pos']} finished at vt {ex['vt']}", pos=pos, seq=d["s1"]))
                     break
